@@ -16,7 +16,14 @@ Variants == << [axis |-> "YX", ns |-> 1, dtype |-> "uint8", comp |-> "deflate", 
                [axis |-> "YXS", ns |-> 3, dtype |-> "uint8", comp |-> "deflate", nodata |-> <<>>, chunks |-> <<0, 0>>, spill |-> 0, wpc |-> 1, schunk |-> 1],
                [axis |-> "YXS", ns |-> 4, dtype |-> "int16", comp |-> "zstd", nodata |-> <<-7>>, chunks |-> <<0, 0>>, spill |-> 2000, wpc |-> 2, schunk |-> 3],
                [axis |-> "SYX", ns |-> 3, dtype |-> "uint16", comp |-> "deflate", nodata |-> <<>>, chunks |-> <<0, 0>>, spill |-> 0, wpc |-> 1, schunk |-> 2],
-               [axis |-> "YXS", ns |-> 2, dtype |-> "float32", comp |-> "lzw", nodata |-> <<>>, chunks |-> <<16, 48>>, spill |-> 0, wpc |-> 1, schunk |-> 1] >>
+               [axis |-> "YXS", ns |-> 2, dtype |-> "float32", comp |-> "lzw", nodata |-> <<>>, chunks |-> <<16, 48>>, spill |-> 0, wpc |-> 1, schunk |-> 1],
+               \* pred: TIFF predictor request ("off" = False, "on" = True, "2" horizontal differencing, "3" floating point; absent = the writer's default);
+               \* classic (non-Big) TIFF; statistics pass switched on
+               [axis |-> "YX", ns |-> 1, dtype |-> "uint16", comp |-> "deflate", nodata |-> <<>>, chunks |-> <<32, 32>>, spill |-> 0, wpc |-> 1, pred |-> "off", bigtiff |-> FALSE, stats |-> TRUE],
+               [axis |-> "YXS", ns |-> 3, dtype |-> "float32", comp |-> "zstd", nodata |-> <<>>, chunks |-> <<32, 48>>, spill |-> 700, wpc |-> 2, pred |-> "3", bigtiff |-> TRUE, stats |-> FALSE],
+               [axis |-> "SYX", ns |-> 2, dtype |-> "int16", comp |-> "lzw", nodata |-> <<-3>>, chunks |-> <<16, 32>>, spill |-> 0, wpc |-> 1, pred |-> "2", bigtiff |-> FALSE, stats |-> TRUE],
+               [axis |-> "YX", ns |-> 1, dtype |-> "float64", comp |-> "deflate", nodata |-> <<>>, chunks |-> <<48, 32>>, spill |-> 0, wpc |-> 1, pred |-> "on", bigtiff |-> TRUE, stats |-> FALSE],
+               [axis |-> "YXS", ns |-> 4, dtype |-> "uint8", comp |-> "deflate", nodata |-> <<>>, chunks |-> <<0, 0>>, spill |-> 0, wpc |-> 1, pred |-> "2", bigtiff |-> FALSE, stats |-> FALSE, schunk |-> 2] >>
 WriteCases == {[h |-> s[1], w |-> s[2], blocks |-> b] @@ Variants[((s[1] + 3 * s[2] + Len(b) + b[1]) % Len(Variants)) + 1] @@ [vidx |-> k] : s \in Shapes, b \in BlockLists, k \in {0}}
               \cup {[h |-> s[1], w |-> s[2], blocks |-> b] @@ Variants[k] @@ [vidx |-> k] : s \in {<<45, 70>>, <<1, 40>>, <<33, 17>>}, b \in {<<32, 16>>, <<16>>}, k \in 1..Len(Variants)}
 VARIABLE c
